@@ -328,8 +328,78 @@ def invariance_cases(draw, tier):
     return c
 
 
+def is_pow2(n):
+    return n >= 1 and (n & (n - 1)) == 0
+
+
+def run_grid_roll(case):
+    """whole-voxel translations of a trajectory whose atoms sit exactly on voxel edges / centres (exact on power-of-two axes)"""
+    M = np.array(case['lattice']['matrix'], float)
+    coords = np.array(case['coords'], float)
+    T, N, _ = coords.shape
+    res, temp = case['resolution'], case['temperature']
+    k = case['k']
+    ta = cases.trajectory(coords, ['Li'] * N, M, 1e-15, temp)
+    va = gcall(ta.to_volume, resolution=res)
+    dims = va.data.shape
+    if list(dims) != case['dims']:
+        raise Skip()  # grid size decided by round-off in the cell lengths
+    tau = np.array([(k[i] % dims[i]) / dims[i] for i in range(3)])
+    cb = coords + tau[None, None, :]
+    cb = cb - np.floor(cb)
+    tb = cases.trajectory(cb, ['Li'] * N, M, 1e-15, temp)
+    vb = gcall(tb.to_volume, resolution=res)
+    shift = [k[i] % dims[i] for i in range(3)]
+    if vb.data.shape != dims or not np.array_equal(np.roll(va.data, shift, axis=(0, 1, 2)), vb.data):
+        raise Violation('translate-grid-changes-density-volume', f'grid {dims}: translating all atoms by {shift} whole voxels does not roll the density by the same shift (atoms on voxel edges: {case["on_edge"]})')
+    Fa, Fb = gcall(va.get_free_energy, temperature=temp), gcall(vb.get_free_energy, temperature=temp)
+    if not np.array_equal(np.roll(Fa.data, shift, axis=(0, 1, 2)), Fb.data):
+        raise Violation('translate-grid-changes-free-energy-grid', f'grid {dims}, shift {shift}')
+    occ = [tuple(int(v) for v in idx) for idx in np.argwhere(va.data > 0)]
+    labels = ['on-edge-samples'] if case['on_edge'] else []
+    if len(occ) >= 2:
+        s0, s1 = occ[0], occ[-1]
+        t0 = tuple((s0[i] + shift[i]) % dims[i] for i in range(3))
+        t1 = tuple((s1[i] + shift[i]) % dims[i] for i in range(3))
+        ca, cb_ = path_cost(Fa, s0, s1), path_cost(Fb, t0, t1)
+        if (ca is None) != (cb_ is None) or (ca is not None and abs(ca - cb_) > 1e-9 * max(1.0, abs(ca))):
+            raise Violation('translate-grid-changes-optimal-path-cost', f'{ca!r} vs {cb_!r}')
+        labels.append('path-compared')
+    return {'nontrivial': any(shift) and case['on_edge'], 'labels': labels}
+
+
+@st.composite
+def grid_roll_cases(draw, tier):
+    lat = draw(gen.lattices())
+    M = np.array(lat['matrix'])
+    L = np.linalg.norm(M, axis=1)
+    n0 = draw(st.sampled_from([2, 4, 8]))
+    ax0 = int(np.argmin(L))
+    res = float(L[ax0] / (n0 + 0.5))
+    dims = [int(math.floor(l / res)) for l in L]
+    if any(abs(l / res - round(l / res)) < 1e-6 for l in L):
+        dims = [0, 0, 0]  # ambiguous grid size: the run skips
+    T, N = draw(st.integers(1, 4)), draw(st.integers(1, 3))
+    on_edge = False
+    coords = np.zeros((T, N, 3))
+    for t in range(T):
+        for a in range(N):
+            for i in range(3):
+                n = max(dims[i], 1)
+                if is_pow2(n) and draw(st.booleans()):
+                    coords[t, a, i] = draw(st.integers(0, 2 * n - 1)) / (2 * n)  # voxel edges and centres, exactly representable
+                    on_edge = on_edge or (coords[t, a, i] * n) % 1 == 0
+                else:
+                    coords[t, a, i] = (draw(st.integers(0, n - 1)) + draw(st.floats(0.1, 0.9))) / n
+    return {'lattice': lat, 'coords': coords.tolist(), 'resolution': res, 'dims': dims, 'k': [draw(st.integers(0, 9)) for _ in range(3)],
+            'temperature': draw(st.sampled_from([300.0, 900.0])), 'on_edge': bool(on_edge)}
+
+
 SUBS = [
     Sub(name='invariance', kind='hyp', run=run, strategy=invariance_cases,
         rule='hopping systems with framework species in all cells; bundle = states, inner states, events, jumps, both matrices, jump diffusivity, collective counts and pairs, species and per-state RDFs, tracer metrics, density volume, free-energy grid, optimal-path cost; compared under the induced relabelling / grid roll',
         n={'quick': 110, 'thorough': 1500}, shards={'quick': 16, 'thorough': 16}),
+    Sub(name='grid-roll', kind='hyp', run=run_grid_roll, strategy=grid_roll_cases,
+        rule='whole-voxel translations of trajectories whose atoms sit exactly on voxel edges / centres of power-of-two grid axes (exact in binary floating point) or well inside voxels on the other axes: density volume and free-energy grid roll by the same shift, optimal-path cost unchanged',
+        n={'quick': 60, 'thorough': 1500}, shards={'quick': 4, 'thorough': 16}),
 ]
